@@ -41,7 +41,7 @@ def load_spec(prop):
         h.setdefault("tiers", ["quick", "thorough"])
         h.setdefault("kind", "proof")
         h.setdefault("timeout", {"quick": 360, "thorough": 1200})
-        h.setdefault("mem_gb", 12)
+        h.setdefault("mem_gb", 10)
         h.setdefault("cbmc_args", list(DEFAULT_CBMC_ARGS))
         h.setdefault("kani_args", [])
         h.setdefault("role", h["name"])
